@@ -53,12 +53,21 @@ const stepDefault = 5 * time.Second
 
 // processLog runs one Process call on the plan and drains the result.
 func (x *X) processLog(p *logPlan, w window, k int, probe bool) *arm {
+	return x.processLogOpt(p, w, k, probe, stepDefault)
+}
+
+// processLogStep: no probe, explicit step (Tail: 0)
+func (x *X) processLogStep(p *logPlan, w window, k int, step time.Duration) *arm {
+	return x.processLogOpt(p, w, k, false, step)
+}
+
+func (x *X) processLogOpt(p *logPlan, w window, k int, probe bool, step time.Duration) *arm {
 	a := &arm{K: k}
 	var before snap
 	if probe {
 		before, _ = takeSnap(p.Chain)
 	}
-	ctx := x.plannerCtx(w, stepDefault, 0)
+	ctx := x.plannerCtx(w, step, 0)
 	defer ctx.CancelCtx()
 	x.DB.begin(ctx)
 	func() {
